@@ -52,15 +52,17 @@ struct LowerCtx {
     stage: Stage,
     diagnostics: Diagnostics,
     constructor_names: HashSet<String>,
+    struct_names: HashSet<String>,
 }
 
 impl LowerCtx {
     fn new(file: &cst::File) -> Self {
-        let constructor_names = collect_constructor_names(file);
+        let (constructor_names, struct_names) = collect_constructor_names(file);
         Self {
             stage: Stage::other("lower"),
             diagnostics: Diagnostics::new(),
             constructor_names,
+            struct_names,
         }
     }
 
@@ -80,10 +82,17 @@ impl LowerCtx {
     fn is_constructor(&self, ident: &ast::AstIdent) -> bool {
         self.constructor_names.contains(&ident.0)
     }
+    /// A struct is built positionally (`Point(3, 4)`) or with field syntax: its name is a
+    /// constructor where arguments follow. On its own the name constructs nothing, and a
+    /// binder may be spelled like it.
+    fn is_applied_constructor(&self, ident: &ast::AstIdent) -> bool {
+        self.constructor_names.contains(&ident.0) || self.struct_names.contains(&ident.0)
+    }
 }
 
-fn collect_constructor_names(file: &cst::File) -> HashSet<String> {
+fn collect_constructor_names(file: &cst::File) -> (HashSet<String>, HashSet<String>) {
     let mut constructor_names = HashSet::new();
+    let mut struct_names = HashSet::new();
 
     for item in file.items() {
         match item {
@@ -96,13 +105,16 @@ fn collect_constructor_names(file: &cst::File) -> HashSet<String> {
                     }
                 }
             }
-            // a struct is built and matched with field syntax (`S { f: v }`): its bare name is no
-            // constructor, and a binder may be spelled like it
+            cst::Item::Struct(struct_node) => {
+                if let Some(token) = struct_node.uident() {
+                    struct_names.insert(token.to_string());
+                }
+            }
             _ => {}
         }
     }
 
-    constructor_names
+    (constructor_names, struct_names)
 }
 
 pub fn lower(node: cst::File) -> LowerResult {
@@ -1165,7 +1177,7 @@ fn lower_expr_with_args(
                             .expect("paths must contain at least one segment");
                         let callee_astptr = MySyntaxNodePtr::new(ident_expr.syntax());
 
-                        if ctx.is_constructor(&variant_ident) {
+                        if ctx.is_applied_constructor(&variant_ident) {
                             let constr = ast::Expr::EConstr {
                                 constructor,
                                 args,
